@@ -166,6 +166,8 @@ func runJob(prog *ssa.Program, job Job, verbose bool) *JobResult {
 			cfg.MaxViolations = int(v)
 		case "MaxAlloc":
 			cfg.MaxAlloc = int(v)
+		case "FallbackTimeoutS":
+			cfg.FallbackTimeoutS = int(v)
 		case "SliceOnly":
 			cfg.SliceOnly = v != 0
 		case "MaxCache":
